@@ -63,6 +63,20 @@ def run(ctx):
                 ctx.finding(rs, "portfolio-stack|%s" % ",".join(seq), "%s: %s" % (tag, detail), "pysmt/solvers/portfolio.py")
         ctx.floor(rs, 8)
 
+    if ctx.want("R9"):
+        rs = ctx.rule("R9", "one-shot shortcuts of the factory with portfolio=<members>: the portfolio is built over exactly the members given, "
+                            "whatever iterable they arrive in")
+        from . import c13_factory
+        for api, form, kind, detail in c13_factory.portfolio_argument_results():
+            if kind == "ok":
+                rs.ok({"shortcut": api, "members given as": form})
+            elif kind == "bad":
+                ctx.finding(rs, "portfolio-argument|%s|%s" % (api, form), "Factory.%s(f, portfolio=<%s of 3 members>): the portfolio is built over %s"
+                            % (api, form, detail), "pysmt/factory.py")
+            else:
+                rs.unrec("%s %s: %s" % (api, form, detail))
+        ctx.floor(rs, 6)
+
     if ctx.want("R8"):
         rs = ctx.rule("R8", "text-interface members started with the per-member options a portfolio hands them (seed, model generation, "
                             "solver options): the member finishes starting - it does not wait for a reply the process never sends - and answers")
